@@ -3,6 +3,7 @@ from vf.tasks.t_fock import circuit_labels
 
 LEVEL = "other"
 EXPLANATION = ("Clause table. PROVED for all probability values (xlift modular, symbolic): the real pdist_calc against the contract of Backend.full_probability_distribution (values >= 0, total <= 1): the result is normalised and the vacuum keeps its own weight plus the missing probability. BOUNDED, exact arithmetic (xlift): Sampler.probability_distribution on 10 circuits x every input of <=2 photons x both backends equals sum over loss configurations of |amp|^2 (spec permanent on U_full), vacuum included, total one, values >= 0, nothing with more photons than injected; equality is exact, or within 1e-9 per truncated full state on the circuit built to have a 1e-5 matrix element. 'Same on both backends' = both meet the same reference. NOT under contract: SLOS.calculate / full_probability_distribution as loops (only through the bounded runs). OUT OF REACH: how often float rounding triggers the vacuum overwrite (A1) - the defect itself was refuted symbolically. ADDED LATER (bounded, native machine integers): one-mode circuits with 12-21 photons and |13,13> through a beam splitter on both backends (factorials beyond 64 bits).")
+EXPLANATION = EXPLANATION + ' ADDED IN ROUNDS 5-8. BOUNDED (native): parameter-update histories incl. updates of relative 4e-6 and sampling calls with their own criteria; backend named in any letter case / with blanks / as object (refused or canonical result); default-constructed Samplers share no source / detector object.'
 ASSUMPTIONS = ["A1: floats are exact reals", "circuit matrices restricted to exact (rational Cayley / sqrt-rational) unitaries inside the bound"]
 TRUSTED = ["xlift field + numpy proxy + exact permanent", "spec formulas vf/spec/fock.py", "z3 5.1"]
 
